@@ -77,8 +77,31 @@ def critical_lines(scr):
     return [(lo, lo, hi) for lo, hi in keep]
 
 
+def _model(r, tier):
+    """Dedup.tla: what a timeout between the separate updates of a simplification step does to MapExact (design level)"""
+    runs = [("one_block_no_repair", dict(NF="2", NC="1", NBlocks="1", MaxRounds="2", Faults="1", Repair="FALSE"), True),
+            ("two_blocks_no_repair", dict(NF="2", NC="1", NBlocks="2", MaxRounds="2", Faults="1", Repair="FALSE"), False)]
+    if tier == "thorough":
+        runs += [("two_blocks_with_check_results", dict(NF="2", NC="1", NBlocks="2", MaxRounds="2", Faults="1", Repair="TRUE"), True),
+                 ("three_functions_one_block", dict(NF="3", NC="1", NBlocks="1", MaxRounds="2", Faults="1", Repair="FALSE"), True)]
+    for name, consts, expect in runs:
+        res = tlc.must(tlc.run("Dedup", "Dedup_mc.cfg", constants=consts, workers=8, heap="8g", timeout=3000), "Dedup " + name)
+        r.add_tlc(res, "dedup_model_" + name)
+        held = "MapExact" not in res["violated"]
+        if held != expect:
+            if expect:
+                r.violation("model:MapExact:" + name, "Dedup.tla: MapExact violated in configuration %s %s - the bookkeeping design does not survive a timeout" % (name, consts))
+            else:
+                raise tlc.TLCError("Dedup.tla: the stale-chain scenario (%s) no longer violates MapExact: the fault model is vacuous" % name)
+        for v in res["violated"]:
+            if v != "MapExact":
+                r.violation("model:%s:%s" % (v, name), "Dedup.tla invariant %s violated (%s)" % (v, name))
+    r.add("dedup_model", evaluations=len(runs), nontrivial=len(runs))
+
+
 def run(tier, replay=None):
     r = evidence.Run(PID, tier, "fault_enumeration")
+    _model(r, tier)
     rng = random.Random(evidence.seed())
     plans = [("core_maths", 3, None, 30), ("base_e_maths", 3, None, 45), ("core_maths", 4, None, 10)] if tier == "quick" else \
         [("core_maths", 3, None, None), ("base_e_maths", 3, None, 1200), ("core_maths", 4, None, 800), ("ext_maths", 3, None, 600)]
@@ -183,6 +206,8 @@ def run(tier, replay=None):
         r.add("faults_%s_n%d" % (name, n), evaluations=len(jobs), nontrivial=outcomes["different_library"], traces=len(jobs), blocks=len(census),
               call_points=len(places), sites=len(sites), critical_window_placements=len(critical), exhaustive_single_faults=exhaustive, **outcomes)
         r.sample({"library": name, "n": n, "time_limited_blocks": len(census), "call_points": len(places), "sites": sites[:6], "example_placement": jobs[len(jobs) // 2]})
+    r.assumptions += ["Dedup.tla (design level): with one time-limited block per round a timeout can never leave a stale substitution (make_changes commits only when the string changed); "
+                      "with two blocks it can, and CheckResults repairs it - checked by TLC in each run"]
     r.cov["rule"] = ("fault = TimeoutException raised at the k-th Python-level call made directly from the frame that opened a `with time_limit` block of simplifier.py "
                      "(sympy_simplify, expand_or_factor, check_results); placements = all (block occurrence, call point) pairs of a fault-free census run; every injected run is "
                      "a full generation in a fresh process; it must complete and the library is judged by Library.tla (C03 clauses) unless byte-identical to the fault-free "
